@@ -961,6 +961,12 @@ class Scores:
                 size=self.nb_hard_neg, n=nb_hard_neg, p=1.0 / max(self.nb_hard_neg, 1)
             )
 
+            # Try to have at least one hard positive and negative sample.
+            if nb_hard_pos > 0 and not np.any(nb_pos_selected):
+                nb_pos_selected[np.random.choice(self.nb_hard_pos)] = 1
+            if nb_hard_neg > 0 and not np.any(nb_neg_selected):
+                nb_neg_selected[np.random.choice(self.nb_hard_neg)] = 1
+
             pos_idx = np.repeat(np.arange(self.nb_hard_pos), nb_pos_selected)
             neg_idx = np.repeat(np.arange(self.nb_hard_neg), nb_neg_selected)
         else:
